@@ -176,6 +176,16 @@ ROUND8 = {
 }
 
 
+ROUND9 = {
+    "C03": " Round 9: the safe interface's derivative wherever its guard is idle.",
+    "C06": " Round 9: exhaustion family (every order of repeated reactants, odd counts, three simulators).",
+    "C12": " Round 9: the delay family 'none' with a delayed part, next to the three real families.",
+    "C14": " Round 9: delayed reactions of every family in both exports.",
+    "C17": " Round 9: lineages linked in one direction; a single daughter cell copied on its own.",
+    "C19": " Round 9: two division rules that hold in the same step.",
+}
+
+
 def main():
     props = [json.loads(l) for l in open(os.path.join(HERE, "properties.jsonl"))]
     checks, na = [], []
@@ -183,7 +193,7 @@ def main():
         pid = p["id"]
         if pid in CLAIMED:
             c = dict(CLAIMED[pid])
-            c["text"] = c["text"] + ROUND4.get(pid, "") + ROUND5.get(pid, "") + ROUND6.get(pid, "") + ROUND8.get(pid, "")
+            c["text"] = c["text"] + ROUND4.get(pid, "") + ROUND5.get(pid, "") + ROUND6.get(pid, "") + ROUND8.get(pid, "") + ROUND9.get(pid, "")
             checks.append({
                 "property_id": pid,
                 "quick_cmd": "./check %s quick" % pid,
